@@ -233,6 +233,80 @@ func (s *Solver) Check(conds []*Term, wantModel bool) (Result, map[string]*big.I
 	return res, model
 }
 
+// CheckValue decides satisfiability of conds and, if sat, returns the model value of bit-vector term t.
+func (s *Solver) CheckValue(conds []*Term, t *Term) (Result, *big.Int) {
+	for _, c := range conds {
+		if c.IsFalse() {
+			return Unsat, nil
+		}
+	}
+	if s.dead {
+		s.restart()
+	}
+	for _, c := range conds {
+		if !c.IsTrue() {
+			s.ensure(c)
+		}
+	}
+	s.ensure(t)
+	t0 := time.Now()
+	s.send("(push 1)")
+	for _, c := range conds {
+		if !c.IsTrue() {
+			s.send("(assert " + s.ref(c) + ")")
+		}
+	}
+	s.send("(check-sat)")
+	ans := s.readLine()
+	for ans == "" || strings.HasPrefix(ans, ";") {
+		ans = s.readLine()
+	}
+	if strings.HasPrefix(ans, "(error") || s.dead {
+		s.Stats.Errors++
+		s.Stats.Unknown++
+		s.Stats.Queries++
+		fmt.Fprintln(os.Stderr, "solver error:", ans)
+		s.restart()
+		return Unknown, nil
+	}
+	var res Result
+	var val *big.Int
+	switch ans {
+	case "sat":
+		res = Sat
+		s.Stats.Sat++
+		s.send("(get-value (" + s.ref(t) + "))")
+		txt := s.readSexp()
+		// ((tNN #x..)) or ((name #b..))
+		if i := strings.Index(txt, "#x"); i >= 0 {
+			end := strings.IndexAny(txt[i:], ") ")
+			val, _ = new(big.Int).SetString(txt[i+2:i+end], 16)
+		} else if i := strings.Index(txt, "#b"); i >= 0 {
+			end := strings.IndexAny(txt[i:], ") ")
+			val, _ = new(big.Int).SetString(txt[i+2:i+end], 2)
+		}
+		if val == nil {
+			res = Unknown
+		}
+	case "unsat":
+		res = Unsat
+		s.Stats.Unsat++
+	default:
+		res = Unknown
+		s.Stats.Unknown++
+	}
+	if !s.dead {
+		s.send("(pop 1)")
+	}
+	d := time.Since(t0).Nanoseconds()
+	s.Stats.Queries++
+	s.Stats.WallNs += d
+	if d > s.Stats.MaxNs {
+		s.Stats.MaxNs = d
+	}
+	return res, val
+}
+
 func (s *Solver) getModel() map[string]*big.Int {
 	m := map[string]*big.Int{}
 	var vars []*Term
@@ -319,7 +393,7 @@ func parseValues(txt string, vars []*Term, m map[string]*big.Int) {
 			val, _ = new(big.Int).SetString(rest[5:5+end], 10)
 		}
 		if val != nil {
-			m[v.Name] = val
+			m[fmt.Sprintf("%s!%d", v.Name, v.W)] = val
 		}
 	}
 }
